@@ -33,7 +33,6 @@ def load_contracts(E):
         if name.startswith('_'):
             continue
         m = importlib.import_module('contracts.' + name)
-        importlib.reload(m) if getattr(m, '_loaded_once', False) else None
         m._loaded_once = True
         mods.append(m)
     E.loaded = set()
@@ -466,11 +465,17 @@ def run_canaries(pc, props_mod, limit=None):
             try:
                 E = sub.engine(tmp)
                 props_mod.build(sub, E, canary=can)
-                sub.solve()
-                failed = [it for it in sub.items if it.result != 'discharged'] or sub.undecided or sub.violations
+                failed = bool(sub.undecided or sub.violations)
+                if not failed:
+                    # one failing obligation is enough; short budget, no refutation search
+                    for it in sub.items:
+                        discharge(it, 5000)
+                        if it.result != 'discharged':
+                            failed = True
+                            break
             except Exception as e:
-                failed = True
-                pc.notes.append('canary %s: engine raised %r (counted as detected)' % (can['name'], e))
+                failed = False
+                pc.errors.append('canary %s: engine raised %r' % (can['name'], traceback.format_exc()[-800:]))
             pc.canaries['total'] += 1
             if failed:
                 pc.canaries['killed'] += 1
